@@ -4,8 +4,9 @@
 // integer grid |v| <= VF_G (outside case) / arbitrary real coordinates (inside case), simplex non-degenerate.
 //   k_weights_inside : target strictly inside, arbitrary tolerance eps >= 0 (default 1e-5 included):
 //                      returns true, weights >= 0, sum = 1, sum_i w_i * vertex_i = target
-//   k_weights_outside: target strictly outside: returns false (tolerance eps = 0: exact statement;
-//                      tolerance 1e-5 when VF_G is small enough for the tolerance to be inactive)
+//   k_weights_outside: target strictly outside: returns false (tolerance eps = 0: the exact statement; the
+//                      default-tolerance variant on a grid too coarse for the tolerance to act is not
+//                      decided by z3: nonlinear integer reasoning)
 // The mesh object is the smallest concrete subclass of AMesh (pure virtuals defined, never called).
 #include "vf.h"
 #include "Mesh/AMesh.hpp"
@@ -106,7 +107,7 @@ extern "C" void k_weights_inside()
     for (int d = 0; d < VF_NDIM; d++)
     {
       double c = 0.;
-      for (int i = 0; i < VF_NC; i++) c += w[i] * V[(i + 1) % VF_NC][d];
+      for (int i = 0; i < VF_NC; i++) c += w[i] * V[i][d];
       vf_assert_id(c - P[d] <= VF_TOL * 64 && P[d] - c <= VF_TOL * 64, "sum w_i * vertex_i == target (affine exactness)");
     }
   }
@@ -118,14 +119,10 @@ extern "C" void k_weights_outside()
   draw(true);
   bool outside = false;
   for (int i = 0; i < VF_NC; i++)
-    if (side[i] <= 0) outside = true;
+    if (side[i] < 0) outside = true;
   vf_assume(outside); // strictly outside
   VectorDouble w(VF_NC);
-#ifdef VF_EPS_DEFAULT
-  bool in = run(EPSILON5, w);
-#else
-  bool in = run(0., w);
-#endif
+  bool in = run(0., w); // tolerance 0: the exact statement (with eps > 0 a band of relative width eps around the simplex is accepted)
   vf_assert_id(!in, "strictly outside => false");
   vf_witness();
 }
